@@ -211,6 +211,15 @@ let rec sx_of_expr e =
 
 let b2s b = if b then "1" else "0"
 
+(* fuel is recursion depth only (theorem roundtrip_any_fuel: a non-Fuel answer is THE answer): start with
+   the closed-form bound and double until the answer is not Fuel *)
+let rec nat_double = function O -> O | S n -> S (S (nat_double n))
+let parse_iter tbl ts =
+  let rec go f k = match p_assign tbl f ts with
+    | Fuel when k < 6 -> go (nat_double f) (k + 1)
+    | r -> r in
+  go (enough_fuel tbl ts) 0
+
 let () =
   let sub = if Array.length Sys.argv > 1 then Sys.argv.(1) else "parse" in
   let tbl = if Array.length Sys.argv > 2 && Sys.argv.(2) = "spec" then spec_table else pinned_table in
@@ -226,7 +235,7 @@ let () =
          match sub with
          | "parse" ->
            let (ts, ctx) = split_ctx line in
-           (match parse tbl (ts @ ctx) with
+           (match parse_iter tbl (ts @ ctx) with
             | Ok (e, rest) ->
               if rest = ctx then print_endline ("OK " ^ dump e)
               else print_endline ("PARTIAL " ^ dump e ^ " @@ " ^ text_of_toks rest)
@@ -236,7 +245,7 @@ let () =
            let e = expr_of_sx (read_sx line) in
            let ctx = [TRP; TSemi] in
            let ts = pr tbl O e in
-           let rt = (match parse tbl (ts @ ctx) with Ok (e', rest) -> e' = strip e && rest = ctx | _ -> false) in
+           let rt = (match parse_iter tbl (ts @ ctx) with Ok (e', rest) -> e' = strip e && rest = ctx | _ -> false) in
            Printf.printf "%s @@@ wf=%s safe=%s nogtlp=%s rt=%s @@@ %s\n" (text_of_toks ts) (b2s (wf e))
              (b2s (safeb false (ts @ ctx))) (b2s (no_gt_lp (ts @ ctx))) (b2s rt) (dump (strip e))
          | "full" -> print_endline (sx_of_expr (full (expr_of_sx (read_sx line))))
